@@ -386,6 +386,17 @@ func (f *FuncCtx) unary(st *State, x *ast.UnaryExpr) Term {
 		if cl, ok := ast.Unparen(x.X).(*ast.CompositeLit); ok {
 			return f.composite(st, cl, true)
 		}
+		// address of a decode-target struct value (a local or a slice element): the reference that models it
+		if valueStructs[namedPath(f.typeOf(x.X))] {
+			switch y := ast.Unparen(x.X).(type) {
+			case *ast.Ident:
+				v := f.expr(st, y)
+				return Term{S: v.S, Sort: SInt, GoT: f.typeOf(x)}
+			case *ast.IndexExpr:
+				v, _ := f.indexRead(st, y, false)
+				return Term{S: v.S, Sort: SInt, GoT: f.typeOf(x)}
+			}
+		}
 		unsup("address-of at %s", f.pos(x))
 	case token.XOR:
 		a := f.expr(st, x.X)
@@ -906,6 +917,22 @@ func (f *FuncCtx) allocRef(st *State, hint string, t types.Type) Term {
 		st.assume(fmt.Sprintf("(= (dyntype %s) %d)", r, f.w.typeID(t)))
 	}
 	return Term{S: r, Sort: SInt, GoT: t}
+}
+
+// newZeroObject allocates the private object that models a decode-target struct value, with zeroed fields.
+func (f *FuncCtx) newZeroObject(st *State, t types.Type) Term {
+	named, _ := types.Unalias(t).(*types.Named)
+	u, _ := t.Underlying().(*types.Struct)
+	if named == nil || u == nil {
+		unsup("zero object of %s", t)
+	}
+	ref := f.allocRef(st, "val_"+named.Obj().Name(), types.NewPointer(t))
+	for _, fp := range f.flatFields(u, "") {
+		v := f.zero(fp.typ)
+		hn, hs := f.w.fieldHeap(named, fp.path, fp.typ, f.bv)
+		f.heapStore(st, hn, hs, ref.S, v.S)
+	}
+	return Term{S: ref.S, Sort: SInt, GoT: t}
 }
 
 func (f *FuncCtx) heapStore(st *State, hn, hs, ref, val string) {
